@@ -66,6 +66,9 @@ bool frame_on_stack(const char *name, int slot) {
 }
 // the module is in the middle of leaving its context: its own deregistration is on the call stack, or it is being replaced (its stop
 // callback runs inside the registration of a namesake). The library has already taken it out of the context's module table.
+bool ctx_member(const Slot &s) {
+    return s.ctx_gen == W->ctx_registrations && s.st != ST_NONE && !(s.st == ST_ZOMBIE && s.dereg_asked) && !leaving(s.idx);
+}
 bool leaving(int slot) {
     if (frame_on_stack("dereg", slot)) return true;
     for (size_t i = 0; i < W->frames.size(); i++) {
@@ -530,7 +533,7 @@ static void loop_end(int rc) {
     // model: a non-persistent context left without modules is released when the loop returns
     if (W->has_ctx && !(W->ctx_flags & M_CTX_PERSIST)) {
         int left = 0;
-        for (auto &o : W->slots) if (o.ctx_gen == W->ctx_registrations && o.st != ST_NONE && o.st != ST_ZOMBIE && !leaving(o.idx)) left++;   // (a module whose deregistration is in progress has left the context already)
+        for (auto &o : W->slots) if (ctx_member(o)) left++;   // (a module whose deregistration is in progress has left the context already)
         if (left == 0) W->has_ctx = false;
     }
 }
@@ -645,8 +648,11 @@ void exec_op(const Op &op, bool in_cb, int cb_slot) {
         return;
     }
     if (n == "ctx_dereg") {
+        std::vector<bool> asked0;
+        for (auto &o : W->slots) { asked0.push_back(o.dereg_asked); if (o.ctx_gen == W->ctx_registrations) o.dereg_asked = true; }
         ApiScope a("ctx_dereg", -1);
         int rc = a.done(m_ctx_deregister());
+        if (rc != 0) for (size_t i = 0; i < asked0.size(); i++) W->slots[i].dereg_asked = asked0[i];   // refused: nobody was asked to leave
         sim::tr("ctx_dereg", rc);
         if (rc == 0) { W->has_ctx = false; W->ctx_looping = false; }
         return;
@@ -756,6 +762,8 @@ void exec_op(const Op &op, bool in_cb, int cb_slot) {
         m_mod_t *h = nullptr;
         W->c15_name_holder = -1;
         for (auto &o : W->slots)
+            if (o.idx != idx && o.name == W->slots[idx].name && o.ctx_gen == W->ctx_registrations && o.registered() && (o.flags & M_MOD_ALLOW_REPLACE)) o.dereg_asked = true;   // (replaced by this one)
+        for (auto &o : W->slots)
             if (o.idx != idx && o.name == W->slots[idx].name && o.ctx_gen == W->ctx_registrations && o.st != ST_NONE && o.st != ST_ZOMBIE &&
                 !frame_on_stack("dereg", o.idx) && !frame_on_stack_any("ctx_dereg") && !frame_on_stack_any("reg")) W->c15_name_holder = o.idx;   // (a module in the middle of its deregistration no longer holds its name)
         W->slots[idx].reg_gseq = R->gseq;
@@ -818,6 +826,8 @@ void exec_op(const Op &op, bool in_cb, int cb_slot) {
     if (!h) return;
     if (n == "dereg") {
         W->reg_dereg_since_quiescent++;
+        bool asked0 = s.dereg_asked;
+        s.dereg_asked = true;
         ApiScope a("dereg", m);
         int rc;
         if (s.h) {
@@ -828,11 +838,12 @@ void exec_op(const Op &op, bool in_cb, int cb_slot) {
             if (!tmp) s.keep = nullptr;   // library consumed the reference we passed
         }
         a.done(rc);
+        if (rc != 0 && s.st != ST_ZOMBIE) s.dereg_asked = asked0;
         sim::tr("dereg", m, rc);
         if (rc == 0 && W->has_ctx && !(W->ctx_flags & M_CTX_PERSIST) && !W->ctx_looping && s.ctx_gen == W->ctx_registrations) {
             // model: an idle non-persistent context is released with its last module
             int left = 0;
-            for (auto &o : W->slots) if (o.ctx_gen == W->ctx_registrations && o.st != ST_NONE && o.st != ST_ZOMBIE && !leaving(o.idx)) left++;   // (a module whose deregistration is in progress has left the context already)
+            for (auto &o : W->slots) if (ctx_member(o)) left++;   // (a module whose deregistration is in progress has left the context already)
             bool in_ctx_dereg = frame_on_stack_any("ctx_dereg");
             if (left == 0 && !in_ctx_dereg) W->has_ctx = false;
         }
